@@ -157,7 +157,7 @@ def parse_kind(s):
     if low == 'none':
         return ('const',)
     table = {'int': 'int', 'bool': 'bool', 'v': 'V', 'e': 'E', 'me': 'ME', 'str': 'str', 'path': 'path',
-             'fn': 'fn', 'cfg': 'cfg', 'map': 'map', 'kset': 'kset', 't3': 'T3', 'opaque': ('opaque',)}
+             'fn': 'fn', 'cfg': 'cfg', 'map': 'map', 'emap': 'emap', 'kset': 'kset', 't3': 'T3', 'opaque': ('opaque',)}
     if low in table:
         return table[low]
     raise ValueError('unknown kind %r' % s)
